@@ -35,6 +35,7 @@ See mc/c15_adapters.py for the oracle decisions (post-LAST steps, dm_env docstri
 """
 from __future__ import annotations
 
+import os
 from typing import Any, Dict, List
 
 from mc import boot  # noqa: F401
@@ -54,6 +55,9 @@ def tasks_for(tier: str, seed: int) -> List[Any]:
     from mc import c15_mts as M
 
     fams = _ORDER + [f for f in catalog.FAMILIES if f not in _ORDER]
+    only = [f for f in os.environ.get("VERIF_C15_ONLY", "").split(",") if f]
+    if only:  # development aid (mutation runs); main() turns such a run into an error, it can never pass
+        fams = [f for f in fams if f in only]
     tasks: List[Any] = []
     for fam in fams:
         n = 1 if tier == "quick" else len(A.CONFIGS[fam])
@@ -61,6 +65,8 @@ def tasks_for(tier: str, seed: int) -> List[Any]:
             tasks.append(("mc.c15_adapters", "run_config", dict(family=fam, index=i, tier=tier, seed=seed,
                                                                model=A.CONFIGS[fam][i][0])))
     for name, in_quick in M.MTS_CONFIGS:
+        if only and catalog.BY_NAME[name].family not in only:
+            continue
         if in_quick or tier != "quick":
             tasks.append(("mc.c15_mts", "run_mts", dict(cfg_name=name, tier=tier, seed=seed, model=f"mts:{name}")))
     for fam in fams:
@@ -100,6 +106,8 @@ def main(tier: str, seed: int) -> int:
     missing = sorted(set(catalog.FAMILIES) - fams)
     if missing:
         rep.errors.append(f"families without adapter histories: {missing}")
+    if os.environ.get("VERIF_C15_ONLY"):
+        rep.errors.append("restricted development run (VERIF_C15_ONLY is set): not a verdict")
     rep.coverage["exhaustive"] = not rep.errors and all(
         m.get("exhaustive", m.get("closed", False)) for m in rep.coverage["per_model"])
     rep.coverage["bounds"] = dict(b)
